@@ -1537,6 +1537,16 @@ func TestReplay(t *testing.T) {
 		}
 		return
 	}
+	if test == "TestPropAliasing" || test == "TestEnumAliasingSizes" {
+		var ac AliasCase
+		if err := json.Unmarshal(raw, &ac); err != nil {
+			t.Fatal(err)
+		}
+		if err := stats.Guard(func() error { return checkAlias(ac) }); err != nil {
+			t.Fatalf("replayed sequence still fails: %v", err)
+		}
+		return
+	}
 	if strings.HasPrefix(test, "TestPropReuse") || test == "TestEnumReusePairs" {
 		var sc SeqCase
 		if err := json.Unmarshal(raw, &sc); err != nil {
